@@ -76,6 +76,59 @@ fn resolve_cut(bytes: &[u8], c: &Cut) -> Option<usize> {
     }
 }
 
+/// Simulates which bytes the request buffer receives: does some request's buffer hold bytes of the next request?
+fn buffer_overread(requests: &[Vec<u8>], segments: &[Vec<u8>]) -> bool {
+    const BUF: usize = 1024;
+    // remaining length of each segment, consumed front to back
+    let mut seg_left: std::collections::VecDeque<usize> = segments.iter().map(|s| s.len()).collect();
+    let mut take = |want: usize, seg_left: &mut std::collections::VecDeque<usize>| -> usize {
+        // one read: at most `want` bytes from the current segment
+        match seg_left.front_mut() {
+            None => 0,
+            Some(left) => {
+                let n = (*left).min(want);
+                *left -= n;
+                if *left == 0 {
+                    seg_left.pop_front();
+                }
+                n
+            }
+        }
+    };
+    let mut pos = 0usize;
+    for req in requests {
+        let start = pos;
+        let end = start + req.len();
+        let head_end = start + head_len(req);
+        // buffer reads: the first one, then on until the head's end is inside what was read (or the buffer is full)
+        let mut filled = take(BUF, &mut seg_left);
+        if filled == 0 {
+            return false;
+        }
+        while start + filled < head_end && filled < BUF {
+            let n = take(BUF - filled, &mut seg_left);
+            if n == 0 {
+                break;
+            }
+            filled += n;
+        }
+        if start + filled > end {
+            return true;
+        }
+        // the rest of the body is read with its exact length, in as many reads as it takes
+        let mut got = start + filled;
+        while got < end {
+            let n = take(end - got, &mut seg_left);
+            if n == 0 {
+                return false;
+            }
+            got += n;
+        }
+        pos = end;
+    }
+    false
+}
+
 impl C06 {
     fn run(&self, segments: Vec<Vec<u8>>, n: usize) -> Result<Vec<u8>, String> {
         let mut reader = ScriptedReader::new(segments);
@@ -91,7 +144,7 @@ impl Property for C06 {
     const ASSUMPTIONS: &'static [&'static str] = &[
         "request heads stay below the 1 KiB buffer",
         "sequences with Connection: close only as the last request",
-        "deviations are classified by the segmentation alone: `coalesced-requests` (some read holds bytes of two requests), `head-split` (a cut strictly inside a head), `body-or-border-split` (everything else)",
+        "deviations are classified by the segmentation alone: `coalesced-requests` (simulating the reads, some read that fills the 1 KiB request buffer reaches beyond the end of its request; a request that follows a body tail in the same segment is not this class), `head-split` (a cut strictly inside a head), `body-or-border-split` (everything else)",
     ];
 
     fn new(_: Tier) -> Self {
@@ -122,6 +175,10 @@ impl Property for C06 {
         let cut = (0u8..3, kind, any::<u16>()).prop_map(|(request, kind, at)| Cut { request, kind, at });
         (vec(echo_wreq(), 1..=3), vec(cut, 0..=4), vec(prop::bool::weighted(0.3), 2), prop::bool::weighted(tier.pick(0.03, 0.15)))
             .prop_map(|(mut requests, cuts, coalesce, real_session)| {
+                // the refused requests C05 adds to its sequences are not this check's subject
+                for w in requests.iter_mut() {
+                    w.headers.retain(|(n, v)| !n.contains('\r') && !(n.eq_ignore_ascii_case("Content-Length") && v.parse::<u64>().is_err()));
+                }
                 // Connection: close only on the last request
                 let n = requests.len();
                 for w in requests[..n - 1].iter_mut() {
@@ -176,7 +233,12 @@ impl Property for C06 {
                 prev = c;
             }
         }
+        // The recorded finding (bytes of the next request discarded) needs more than a coalesced border: the reads
+        // that fill the 1 KiB request buffer (the first read of a request and the reads that complete its head) must
+        // reach beyond the request's end. A body tail is read with an exact length, so a following request in the
+        // same segment as a body tail is *not* that shape and stays strictly checked.
         obs.nontrivial = inside || coalesced;
+        let coalesced = coalesced && buffer_overread(&bytes, &segments);
         obs.evals = segments.len() as u64;
         let class = if coalesced {
             "coalesced-requests"
